@@ -2,9 +2,12 @@
 //! usage: vcore <check> --tier quick|thorough --seed N --out result.json [--only I] ...
 
 mod c01;
+mod builders;
 mod c02;
 mod common;
 mod corpus;
+mod parsers;
+mod uris;
 
 use vkit::alloc::Counting;
 use vkit::out::Report;
@@ -28,6 +31,14 @@ fn main() {
     let report: Report = match cmd.as_str() {
         "c01" => c01::run_c01(&args, &tier, seed),
         "c03" => c01::run_c03(&args, &tier, seed),
+        "c04" => parsers::run_c04(&args, &tier, seed),
+        "c05" => parsers::run_c05(&args, &tier, seed),
+        "c06" => parsers::run_c06(&args, &tier, seed),
+        "c07" => parsers::run_c07(&args, &tier, seed),
+        "c09" => builders::run_c09(&args, &tier, seed),
+        "c10" => builders::run_c10(&args, &tier, seed),
+        "c13" => builders::run_c13(&args, &tier, seed),
+        "c14" => builders::run_c14(&args, &tier, seed),
         "c02w" => c02::run_worker(&args, &tier, seed),
         "c02bomb" => c02::run_bomb(&args, &tier, seed),
         _ => {
